@@ -45,7 +45,8 @@ def write_replay(prop, clause, contract, modname, repo, payload):
     n = len(glob.glob(os.path.join(REPLAYS, '%s-*.json' % clause))) + 1
     path = os.path.join(REPLAYS, '%s-%d.json' % (clause, n))
     payload = dict(payload, property=prop, obligation=clause, contract=contract, module=modname,
-                   tree=tree_id(repo))
+                   tree=tree_id(repo), tier=os.environ.get('VERIF_TIER_EFFECTIVE', 'quick'),
+                   seed=int(os.environ.get('VERIF_SEED_EFFECTIVE', '0')))
     with open(path, 'w') as f:
         json.dump(payload, f, indent=1, default=str)
     return path
@@ -65,6 +66,13 @@ def replay_file(path, repo):
         return 1
     if ct.opts.get('custom_replay'):
         bad = ct.opts['custom_replay'](rp)
+    elif ct.opts.get('custom'):
+        # run-time contracts over lenses / files / tables: the recorded case is re-generated from (tier, seed) and re-run
+        res = ct.opts['custom'](ct, rp.get('tier', 'quick'), int(rp.get('seed', 0)))
+        fl = [f for f in res.get('numeric', {}).get('failures', []) if f.get('clause') == rp['obligation']]
+        same = [f for f in fl if f.get('draws') == rp.get('inputs')] or fl
+        bad = bool(same)
+        print('replay on real code (custom contract re-run with tier=%s seed=%s): %s' % (rp.get('tier'), rp.get('seed'), same[:2]))
     else:
         ctx, fails, exc = vc.run_numeric(ct, draws=rp['inputs'], rng=random.Random(0))
         bad = bool(exc and exc != 'reject') or bool(fails and any(c == rp['obligation'] or True for c, _ in fails))
@@ -77,6 +85,8 @@ def replay_file(path, repo):
 
 
 def run_property(a, seed, run_contracts):
+    os.environ['VERIF_TIER_EFFECTIVE'] = a.tier
+    os.environ['VERIF_SEED_EFFECTIVE'] = str(seed)
     from . import vc
     prop = a.prop
     if a.replay:
